@@ -253,3 +253,34 @@ add(Contract(
     raises={'ValueError': ["not iscallable(count_raw_condition) and not isint(count_raw_condition)"
                            " and not isinst(count_raw_condition, 'Field')"]},
     modifies=[], allocates=True, returns='any'))
+
+# ---------------------------------------------------------------- init (C19)
+add(Contract(
+    'structural_fields:Sequence.init',
+    params={'self': 'ref:Sequence', 'packet': 'ref:Packet', 'defaults': 'conf'},
+    requires=["not owns(self.prototype_field, self.field_name)"],
+    ensures=[
+        "hasslot(packet, self.field_name)",
+        # the given list, or a deep copy of the declared default list (a fresh object, never shared)
+        "implies(self.field_name in defaults, same(slot(packet, self.field_name), defaults[self.field_name]))",
+        "implies(not (self.field_name in defaults) and islist(self.default), fresh_since(slot(packet, self.field_name)))",
+        "implies(not (self.field_name in defaults) and islist(self.default),"
+        "        islist(slot(packet, self.field_name)) and forall(0, len(aslist(slot(packet, self.field_name))), lambda j:"
+        "           isprim(aslist(slot(packet, self.field_name))[j]) or fresh_since(aslist(slot(packet, self.field_name))[j]),"
+        "           pat=lambda j: aslist(slot(packet, self.field_name))[j]))",
+    ],
+    raises={'OtherException*': []},
+    modifies=['slot(packet, in:n == self.field_name or owns(self.prototype_field, n))'], allocates=True))
+
+add(Contract(
+    'structural_fields:Optional.init',
+    params={'self': 'ref:Optional', 'packet': 'ref:Packet', 'defaults': 'conf'},
+    requires=["not owns(self.prototype_field, self.field_name)"],
+    ensures=[
+        "hasslot(packet, self.field_name)",
+        "implies(self.field_name in defaults, same(slot(packet, self.field_name), defaults[self.field_name]))",
+        # None or the given default
+        "implies(not (self.field_name in defaults) and isnone(self.default), isnone(slot(packet, self.field_name)))",
+    ],
+    raises={'OtherException*': []},
+    modifies=['slot(packet, in:n == self.field_name or owns(self.prototype_field, n))'], allocates=True))
